@@ -313,8 +313,14 @@ Commute ==
      /\ MayIFS(SwapPairs(Pairs, j), N) = May
      /\ MustIFS(SwapPairs(Pairs, j), N) = Must
 
-\* one more criterion can only narrow the selection
-Narrowing == [][crits' # crits => (May' \subseteq May /\ Must' \subseteq Must)]_vars
+\* one more criterion can only narrow the selection: what the pairs select
+\* is selected by all but the last of them (every step AddCrit of the
+\* machine, stated on the state it leads to)
+Narrowing ==
+  crits # <<>> =>
+  LET front == SubSeq(Pairs, 1, Len(crits) - 1)
+  IN  /\ May \subseteq MayIFS(front, N)
+      /\ Must \subseteq MustIFS(front, N)
 
 \* "=x" and "<>x" partition the range (over the cells the statement fixes)
 \* the relation allows an answer to "=x" exactly when it allows the opposite
@@ -390,21 +396,29 @@ AverageLaw ==
 
 --------------------------------------------------------------------------
 (* test-vector export *)
+\* (the selection is computed once per state: TLC does not keep the value
+\* of a state-level definition, it does keep the value of a LET)
 Export ==
   (N >= 1 /\ Len(crits) >= 1) =>
+  LET must == Must
+      may  == May
+      enum == Cardinality(may \ must) <= FreeMax                \* Enumerable
+      sels == IF enum THEN {must \cup X : X \in SUBSET (may \ must)} ELSE {}
+  IN
   PrintT(ToJson([rng   |-> rng,
                  crits |-> crits,
-                 must  |-> Mask(Must),
-                 may   |-> Mask(May),
-                 enum  |-> Enumerable,
+                 must  |-> Mask(must),
+                 may   |-> Mask(may),
+                 enum  |-> enum,
                  data  |-> Data,
                  \* positions whose answer to the first criterion is fixed
                  fixed |-> Mask({i \in 1..N : Fixed(rng[i], crits[1])}),
                  \* ... and those where "=x" / "<>x" must give opposite answers
                  compl |-> Mask({i \in 1..N : Complementary(rng[i], crits[1])}),
-                 outs  |-> Outcomes,
-                 \* the mixed third range, per starting point
-                 mixed |-> {[o |-> o, cells |-> Mixed(o), outs |-> MixOutcomes(o)]
+                 outs  |-> {Outcome(sel) : sel \in sels},            \* Outcomes
+                 \* the mixed third range, per starting point (MixOutcomes)
+                 mixed |-> {[o |-> o, cells |-> Mixed(o),
+                             outs |-> {MixOut(sel, o) : sel \in sels}]
                             : o \in Offsets},
                  \* single criterion "=x" / "<>x": together with its flipped
                  \* twin it must partition the fixed positions
